@@ -252,6 +252,11 @@ mixed2('C12', [('contracts.cfg', 'CFG.is_empty'), ('contracts.cfg', 'CFG.get_rea
       'Deductive for get_reachable_symbols (exactly the symbols occurring in a sentential form derivable from the start symbol, by closure induction), for get_generating_symbols and get_nullable_symbols (the counter worklist _get_generating_or_nullable returns exactly the least set containing the terminals - resp. nothing - and the head of every production whose body lies in it; the memoising wrappers return it and keep their memo consistent), and for is_empty (start symbol not generating).',
       'contract-based deductive verification (pyvc + z3, Mathlib for the counting facts) for reachability, generating / nullable symbols and emptiness; bounded run-time contract checking for finiteness (networkx) and word enumeration', CFG_TRUST[:2] + ['get_generating_symbols is proved in contracts/cfg_gen.py (worklist with counters, against the least-set spec GNS); assumed there: the contract of the table builder CFG._set_impacts_and_remaining_lists (one counter cell per non-empty production initialised with the body length, one _impacts entry per body position), the four List.countP / List.count facts proved in bridge/count.lean, the induction principle of the least set (one instance), and that the memo fields hold None or the computed set'])
 
+CFG_INIT_JOBS = [('contracts.cfg_init', f'CFGInit{r}.{m}') for r in ('Set', 'List') for m in ('__initialize_production_in_cfg', '__init__#full', '__init__#start+productions')] \
+    + [('contracts.cfg_init', f'fn.{k}#{v}') for k in ('to_variable', 'to_terminal') for v in ('object', 'raw')]
+CFG_INIT_TEXT = ('Deductive for the grammar constructor CFG.__init__ (with __initialize_production_in_cfg and cfg.utils.to_variable / to_terminal): for productions given as a set or as a list, with all four arguments or with '
+                 'start symbol and productions only, the new grammar has exactly the given variables plus the start symbol, the heads and the variables of the bodies, the given terminals plus the terminals of the bodies, '
+                 'the given start symbol and productions, and every memo field None - the model under which every other contract of the grammar world reads `CFG(...)`. ')
 CONV_JOBS = [('contracts.cfg_conv', 'CFGVariableConverter.' + k) for k in ('_set_index_state', '_get_state_index', '_set_index_symbol', '_get_symbol_index', '_get_indexes', '_create_new_variable', 'to_cfg_combined_variable', 'set_valid', 'is_valid_and_get')] + [('contracts.cfg_conv_init', 'CFGVariableConverter.__init__')]
 PDA_REP_JOBS = [('contracts.pda_tf', 'PdaTFc.' + k) for k in ('add_transition', '__call__', 'copy')] \
     + [('contracts.pda_creator', f'fn._get_object_from_{h}[{k}]') for k in ('State', 'Symbol', 'StackSymbol') for h in ('known', 'raw')] \
@@ -337,3 +342,9 @@ mixed2('C11', [('contracts.cfg_inter', k) for k in ('fn._get_all_bodies', 'fn._i
         'DeterministicFiniteAutomaton.__call__ returns [] or [the successor]; accepts([]) of a deterministic automaton == its start state is final; contains([]) is a function of the grammar; to_deterministic returns a deterministic automaton with one start state whose start and final states are states; '
         'language parts of to_normal_form and to_deterministic: C09, C01',
         'Terminal.value of a terminal is read as the automaton symbol with the same value (symbol_of); Production(..., filtering=False) stores the body as given'])
+
+# the grammar constructor: proved once (contracts/cfg_init.py), listed under every property whose proved functions build grammars with it
+for _pid in ('C09', 'C10', 'C11', 'C12', 'C13'):
+    PROPS[_pid]['pyvc'] = list(PROPS[_pid]['pyvc']) + CFG_INIT_JOBS
+    PROPS[_pid]['level_text'] = PROPS[_pid]['level_text'].replace(' The rest of the chain is only covered by the bounded stand-in: ', ' ' + CFG_INIT_TEXT + 'The rest of the chain is only covered by the bounded stand-in: ', 1)
+    PROPS[_pid]['trusted_base'] = list(PROPS[_pid].get('trusted_base', [])) + ['`CFG(...)` at the call sites is the model of contracts/cfg.py (cfg_ctor); that CFG.__init__ satisfies this model is proved in contracts/cfg_init.py for the argument shapes listed there (the correspondence of the two formulations is word for word, by inspection); `_productions` keeps the object it is given (set or list)']
